@@ -1,3 +1,4 @@
+import Treepath.Proofs.RefoldApi
 import Treepath.Proofs.MutateLemmas
 import Treepath.Proofs.NaturalNext
 /- C10 — pop removes exactly the first match and returns it -/
@@ -138,5 +139,29 @@ theorem nothing_to_pop_means_nothing_selected (stepsOf : Heap → List (Step Val
     simp only [Prod.mk.injEq, Except.error.injEq] at hpop
     obtain ⟨_, rfl⟩ := hpop
     exact getMatch_heap_notfound h root j hu (stepsOf h).toArray sb (by simpa using hsteps) hp true (.inr hg)
+
+/-! ### `pop` as an update of the JSON tree -/
+
+/-- **exactly one entry, said on the tree**: on a document that is a tree (`DocInv`), a
+successful `pop_match` makes the document unfold to `J.popAt j p.loc nm` — `j` without the
+entry named by the last step inside the node at the location of the match's parent, every
+other part of `j` as it was, nothing new — and the document is again such a tree -/
+theorem pop_is_one_tree_update (stepsOf : Heap → List (Step Val)) (root : Val) (j : J) (h h' : Heap) (mm : Bool)
+    (m : MNode Val) (hi : DocInv h root j)
+    (hpop : popMatch stepsOf (.doc root) mm h = (h', .ok (some m))) :
+    ∃ p nm j', m.parent = some p ∧ J.popAt j p.loc nm = some j' ∧ DocInv h' root j' ∧
+      ∀ x ∈ fpJ h' j' root, x ∈ fpJ h j root :=
+  popMatch_refines stepsOf root j h h' mm m hi hpop
+
+/-- every other outcome of `pop_match` (nothing matched, an error) leaves the store as it is -/
+theorem pop_otherwise_nothing (stepsOf : Heap → List (Step Val)) (src : Src Val) (h h' : Heap) (mm : Bool)
+    (r : Except ApiErr (Option (MNode Val))) (hpop : popMatch stepsOf src mm h = (h', r))
+    (hr : ∀ m, r ≠ .ok (some m)) : h' = h :=
+  popMatch_other stepsOf src h h' mm r hpop hr
+
+/-- the tree-level removal, computed: `pop(path.a[-1], {"a": [1, 2], "b": null})` -/
+example : J.popAt (.obj [("a", .arr [.int 1, .int 2]), ("b", .null)]) [.key "a"] (.idx (-1))
+    = some (.obj [("a", .arr [.int 1]), ("b", .null)]) := by
+  simp [J.popAt, J.updateAt, childAt, J.view, List.lookup, J.delName, normIndex, J.putChild, kvsSet]
 
 end Treepath.C10
